@@ -367,6 +367,40 @@ long vf_t13_calls(void) { return t13_calls; }
 long vf_t13_applied(void) { return t13_applied; }
 long vf_t13_last_len(void) { return (long)t13_last_len; }
 
+/* ---- a peer that lies consistently about its signature scheme (the altered message is what the peer itself hashes
+ *      into its transcript, unlike a change made on the wire) ------------------------------------------------- */
+typedef int (*cv_fn)(uint8_t *, size_t *, int, const uint8_t *, size_t);
+typedef int (*ske_fn)(uint8_t *, size_t *, int, const void *, const uint8_t *, size_t);
+static cv_fn cv_real;
+static ske_fn ske_real;
+static __thread long scheme_override = -1, scheme_applied;
+void vf_scheme_set_real(void *cv, void *ske) { cv_real = (cv_fn)cv; ske_real = (ske_fn)ske; }
+void vf_scheme_override(long scheme) { scheme_override = scheme; scheme_applied = 0; }
+long vf_scheme_applied(void) { return scheme_applied; }
+
+#ifdef VF_INTERPOSE_T13
+int tls13_record_set_handshake_certificate_verify(uint8_t *record, size_t *recordlen, int sign_algor, const uint8_t *sig, size_t siglen)
+{
+	if (!cv_real) return -1;
+	if (scheme_override >= 0) { sign_algor = (int)scheme_override; scheme_applied++; }
+	return cv_real(record, recordlen, sign_algor, sig, siglen);
+}
+
+int tls_record_set_handshake_server_key_exchange_ecdhe(uint8_t *record, size_t *recordlen, int curve, const void *point,
+	const uint8_t *sig, size_t siglen)
+{
+	int r;
+	if (!ske_real) return -1;
+	r = ske_real(record, recordlen, curve, point, sig, siglen);
+	if (r == 1 && scheme_override >= 0 && *recordlen > 5 + 4 + 69 + 2) {
+		record[5 + 4 + 69] = (uint8_t)(scheme_override >> 8);
+		record[5 + 4 + 70] = (uint8_t)scheme_override;
+		scheme_applied++;
+	}
+	return r;
+}
+#endif
+
 #ifdef VF_INTERPOSE_T13
 int tls13_record_encrypt(const void *key, const uint8_t iv[12], const uint8_t seq[8],
 	const uint8_t *rec, size_t reclen, size_t padding, uint8_t *out, size_t *outlen)
